@@ -351,7 +351,7 @@ class Run:
                 log("note: known finding %s no longer reproduces (witness accepted)" % k["id"])
 
     # ------------------------------------------------------------ self test
-    def selftest(self, outdir, meta, gen, spec=None, dfs=False, field=None):
+    def selftest(self, outdir, meta, gen, spec=None, dfs=False, field=None, removed=True):
         """Binding demonstration: a corrupted field and a removed event of a good
         history must both be rejected by the trace specification."""
         for job in meta.get("jobs", []):
@@ -369,7 +369,7 @@ class Run:
             hr = [h[0]] + h[2:]
             res = {}
             for tag, hh in (("corrupted_field", hc), ("removed_event", hr)):
-                if hh is None:
+                if hh is None or (tag == "removed_event" and not removed):
                     continue
                 p = os.path.join(outdir, "_selftest_%s.ndjson" % tag)
                 open(p, "w").write("\n".join(hh) + "\n")
